@@ -27,7 +27,7 @@ KIND_REPS = [['int', 3], ['fixed', 640], ['str', 'k l'], ['obj', 'zz_y', 12], ['
 STR_TOKENS = ['a', ' ', ',', ', ', '(', ')', '[', ']', '{', '}', '<1>', '@3', '#3', ' -> ', '.', 'nil', 'new id ', 'fd 3',
               'array', '7', '-', '1.5', "'", 'é', '[1.0] ', 'x@1.y(',
               # composite bodies that look like a whole message head
-              '[1.0]  -> x@1.y(', '} <2> c#2.d(', '[2.0] z@2.w(']
+              '[1.0]  -> x@1.y(', '} <2> c#2.d(', '[2.0] z@2.w(', '[3.0] <6>  -> v@4.u(', '[3.0] {q} <7> v@4.u(']
 
 NEIGHBOURS = [['int', 1], ['str', 'n'], ['nil'], ['obj', 'wl_x', 5], ['new', None, 6], ['fixed', 384], ['array', 4],
               ['fd', 2]]
@@ -153,6 +153,42 @@ def gen_cases(tier):
         yield {'neg': valid[:k]}
 
 
+# ---- decoding must not depend on what was decoded and resolved before -----------------
+
+HISTORY_MSGS = [
+    [['int', 1], ['str', 'zz_a'], ['int', 1], ['new', None, 3]],        # wl_registry.bind to zz_a
+    [['int', 2], ['str', 'zz_b'], ['int', 1], ['new', None, 3]],        # the same id bound to another interface
+    [['new', None, 3]], [['new', 'zz_a', 3]], [['new', 'zz_b', 3]], [['obj', 'zz_a', 3]], [['obj', 'zz_b', 3]],
+    [['int', 3]], [['str', 'zz_a']], [['nil']],
+]
+
+
+def gen_history_cases(tier):
+    for i, a in enumerate(HISTORY_MSGS):
+        for j, b in enumerate(HISTORY_MSGS):
+            for (d, q, c) in COMBOS_SMALL:
+                for target in (('wl_registry', 2, 'bind'), ('zz_t', 3, 'msg')):
+                    yield {'after': [a], 'm': base_msg(b, True, q, c, iface=target[0], oid=target[1], name=target[2]), 'd': d,
+                           'after_target': list(target)}
+
+
+def evaluate_after_history(case):
+    """Feed the earlier lines through a whole session (decoded AND resolved against a connection), then decode
+    the line under test on its own: the decode must equal the structured message, whatever came before."""
+    s = sut.Session()
+    t = case['after_target']
+    s.feed_line('[1.000] <%s>  -> wl_display@1.get_registry(new id wl_registry@2)' % (case['m']['conn'] or '1')
+                if wlprint.DIALECTS[case['d']]['tags'] else '[1.000]  -> wl_display@1.get_registry(new id wl_registry@2)')
+    for k, args in enumerate(case['after']):
+        m = base_msg(args, True, case['m']['queue'], case['m']['conn'], t_us=2000 + k, iface=t[0], oid=t[1], name=t[2])
+        s.feed_line(wlprint.render(m, case['d']))
+    sut.LOG.take()
+    ev = evaluate({'m': case['m'], 'd': case['d']})
+    for v in ev.viols:
+        v.case = case
+    return ev
+
+
 # ---- oracle ---------------------------------------------------------------------
 
 _untagged = None
@@ -262,10 +298,13 @@ def evaluate(case):
 
 def run(run, tier, seed):
     sut.bind()
+    sut.ensure_protocols()
     res = explore.prod(lambda: gen_cases(tier), evaluate, seed=seed,
                        bound={'arg_lists_len': 2 if tier == 'quick' else 3, 'string_tokens': 2 if tier == 'quick' else 3,
                               'positions': 20})
     run.add_part('lines', res)
+    res2 = explore.prod(lambda: gen_history_cases(tier), evaluate_after_history, seed=seed, bound={'history': 'one earlier line, resolved'})
+    run.add_part('decode_after_history', res2)
     run.rule = ('product enumeration: printer-model lines over dialects {old, old+comma, 1.21, current+patches} x '
                 'direction x queue/connection tags x argument lists; non-trivial = at least two argument kinds in the line')
     run.bound = res.bound
@@ -276,4 +315,7 @@ def run(run, tier, seed):
 
 def replay(case):
     sut.bind()
+    if 'after' in case:
+        sut.ensure_protocols()
+        return evaluate_after_history(case).viols
     return evaluate(case).viols
